@@ -232,7 +232,8 @@ class NN:
         recv = sym.canon(t.get('recv'), roles) if 'recv' in t else None
         # FreeList::allocate() without argument: non-null when the list is not empty
         if short == 'allocate' and not t.get('args') and 'free_memory_list' in t.get('cls', ''):
-            if ('%s.empty()' % recv, False) in s.conds:
+            if ('%s.empty()' % recv, False) in s.conds or ('(0 == %s.capacity())' % recv, False) in s.conds \
+                    or ('%s.capacity()' % recv, True) in s.conds or ('(0 != %s.capacity())' % recv, True) in s.conds:
                 return True, 'list tested non-empty on this path'
             for c in s.calls:
                 if c[0].startswith('%s.insert(' % recv):
